@@ -6,6 +6,13 @@ reachable by any schedule (`run (Sys.init r J) acts`, `acts` arbitrary: any numb
 GenerateSecret calls for either resource, timer callbacks, trust bundle updates, interleaved at
 atomic steps, with arbitrary CA behaviour, clock values and jitter values).
 -/
+-- the `first | (...; done) | ...` cascades below try the cheap closing tactic first; in the branches where it
+-- already succeeds the linters report the fallbacks as unused. They are needed in the other branches.
+set_option linter.unusedTactic false
+set_option linter.unreachableTactic false
+set_option linter.unusedSimpArgs false
+set_option linter.unusedVariables false
+
 namespace IstioModel.C18
 
 theorem length_markFired (q : List Entry) (e : Nat) : (markFired q e).length = q.length := by
